@@ -1,6 +1,6 @@
 """Model side of the file-lock checks: exhaustive TLC runs of specs/filelock/FileLock.tla."""
 
-ACTIONS = ['Start', 'TLAcquire', 'IncCounter', 'OsOpen', 'OsLock', 'SetFd', 'CloseFail', 'Check', 'Cleanup',
+ACTIONS = ['Start', 'Refused', 'TLAcquire', 'IncCounter', 'OsOpen', 'OsLock', 'SetFd', 'CloseFail', 'Check', 'Cleanup',
            'Acquired', 'Leave', 'RelCheck', 'RelDecide', 'OsUnlock', 'OsClose', 'TLRelease', 'RelDone']
 
 PLAN = {
